@@ -2432,6 +2432,8 @@ class Context:
                     del self.fail_counts[k_]
                 rep.paths = 0
                 rep.live_paths = 0
+                rep.ante_live = {}
+                rep.loop_exit_live = {}
                 rep.unsupported = []
                 note_ = '%s: %s (restarted)' % (fi.qualname, e.msg)
                 if note_ not in self.notes:
@@ -2449,6 +2451,28 @@ class Context:
             work += I.pending
         self.current = None
         self.current_fi = None
+        if not rep.unsupported and os.environ.get('PYVC_ANTE', 'enforce') != 'off':
+            for k_, live_ in sorted(getattr(rep, 'ante_live', {}).items()):
+                if not live_:
+                    if os.environ.get('PYVC_ANTE') == 'report':
+                        print('ANTECEDENT-DEAD %s post#%d' % (fi.qualname, k_))
+                    else:
+                        self.record(Obligation('%s:vacuity:antecedent[post#%d]' % (fi.qualname, k_), fi.qualname, 'vacuity', 'failed',
+                                               'z3-5.1.0(cover)', 0.0, [],
+                                               'the antecedent of this conditional post-condition is impossible on every path that reaches '
+                                               'the exit: the clause holds vacuously'))
+                else:
+                    self.record(Obligation('%s:vacuity:antecedent[post#%d]' % (fi.qualname, k_), fi.qualname, 'vacuity', 'discharged',
+                                           'z3-5.1.0(cover)', 0.0, [], ''))
+        if not rep.unsupported and os.environ.get('PYVC_ANTE', 'enforce') != 'off':
+            for key_, live_ in sorted(getattr(rep, 'loop_exit_live', {}).items()):
+                if os.environ.get('PYVC_ANTE') == 'report':
+                    if not live_:
+                        print('LOOP-EXIT-DEAD %s' % key_)
+                    continue
+                self.record(Obligation('%s:vacuity:loop-exit' % key_.replace('#', ':'), fi.qualname, 'vacuity', 'discharged' if live_ else 'failed',
+                                       'z3-5.1.0(cover)', 0.0, [],
+                                       '' if live_ else 'no run of at least one iteration can leave this loop: everything proved after it holds vacuously'))
         if not rep.unsupported:
             live = getattr(rep, 'live_paths', 0)
             self.record(Obligation('%s:vacuity:live-path' % fi.qualname, fi.qualname, 'vacuity',
@@ -2523,7 +2547,18 @@ class Context:
                 ok = self.type_matches(I, result, contract.ret)
                 if ok is False:
                     I.prove('%s:result-type' % q, 'postcondition', False, fi.node, detail='returned %r, contract says %r' % (result, contract.ret))
+            ante = self.reports[contract.key].__dict__.setdefault('ante_live', {})
             for k, c in enumerate(contract.of('ensures')):
+                e0 = c.args[0]
+                if isinstance(e0, ast.Call) and isinstance(e0.func, ast.Name) and e0.func.id == 'implies' and len(e0.args) == 2 \
+                        and not ante.get(k + 1):
+                    # vacuity cover behind each conditional post-condition: its antecedent must be possible on SOME path that reaches
+                    # the exit (otherwise the clause holds for the wrong reason: dead exit path, contradictory invariant, typo)
+                    try:
+                        a_ = I.truthy(self.eval_spec(I, e0.args[0], env, contract.sidecar, pre, entry_env, result=result, has_result=True))
+                        ante[k + 1] = bool(ante.get(k + 1)) or prover.feasible(self.axioms(True), I.st.pc, a_, timeout_ms=1000)
+                    except Unsupported:
+                        ante[k + 1] = True
                 v = self.eval_spec(I, c.args[0], env, contract.sidecar, pre, entry_env, result=result, has_result=True)
                 I.prove('%s:post#%d' % (q, k + 1), 'postcondition', I.truthy(v), c)
             self.check_frame(I, contract, env, pre, q)
